@@ -50,6 +50,9 @@ type Session struct {
 	SubDir   string // directory of the Sub view the calls go through
 	// Inline makes Exec run the call on the calling goroutine (no per-call watchdog)
 	Inline bool
+	// ProjFS, when set, is the administrator's file system the projection reads through (the acting user may not
+	// be allowed to look everywhere)
+	ProjFS avfs.VFS
 	// CwdFS, when set, is the view whose working directory the projection reports (the acting user's view)
 	CwdFS avfs.VFS
 	Win   bool // a Windows-typed file system: C:\ paths, modes and owners are not compared
@@ -827,6 +830,10 @@ func (s *Session) setUser(uid, gid int) error {
 	}
 
 	root := s.base()
+	if s.ProjFS != nil {
+		root = s.ProjFS
+	}
+
 	idm := root.Idm()
 
 	if idm == nil || !root.HasFeature(avfs.FeatIdentityMgr) {
@@ -862,13 +869,13 @@ func (s *Session) setUser(uid, gid int) error {
 		}
 	}
 
-	if s.Base == nil {
+	if s.ProjFS == nil {
 		view, err := s.FS.Sub("/")
 		if err != nil {
 			return err
 		}
 
-		s.Base, s.FS, s.CwdFS = s.FS, view, view
+		s.ProjFS, s.FS, s.CwdFS = s.FS, view, view
 	}
 
 	return s.FS.SetUser(u)
